@@ -9,6 +9,7 @@
 use crate::worker::{catch, Ctx, Tier};
 use serde_json::{json, Value};
 use std::process::Command;
+use std::time::{Duration, Instant};
 use vcore::enumerate::{count_upto, for_range, shard_range};
 use vcore::report::ShardResult;
 
@@ -32,7 +33,7 @@ pub fn jobs(prop: &str, tier: Tier) -> Vec<(String, u64)> {
         "C05" => vec![("proc:status".into(), 16)],
         "C02" | "C03" => vec![("proc:conform".into(), 8)],
         "C19" => vec![("proc:summary".into(), 1)],
-        "C20" => vec![("proc:pty".into(), 16)],
+        "C20" => vec![("proc:pty".into(), 16), ("proc:stall".into(), 4)],
         "C12" => vec![("proc:errors".into(), 1)],
         _ => vec![],
     }
@@ -864,6 +865,132 @@ fn pty_job(ctx: &mut Ctx, res: &mut ShardResult) {
     }
 }
 
+// --- a terminal that stops reading (C20) ----------------------------------------------
+
+/// n2 on a pty whose other side is not read for a while: a finished command
+/// with a large output makes one frame bigger than the pty buffer, so the
+/// display thread blocks in write() - for `stall_ms` after the buffer is seen
+/// full - before the terminal is drained.  The build must still complete.
+fn stall_job(ctx: &mut Ctx, res: &mut ShardResult) {
+    use std::os::fd::{AsRawFd, FromRawFd, OwnedFd};
+    let job = ctx.job.clone();
+    let cases: [(usize, u64); 4] = [(400_000, 1000), (400_000, 600), (120_000, 1500), (30_000, 800)];
+    for (idx, (bytes, stall_ms)) in cases.iter().enumerate() {
+        let idx = idx as u64;
+        if let Some(c) = &ctx.replay {
+            if c["index"].as_u64() != Some(idx) {
+                continue;
+            }
+        } else if idx % ctx.nshards != ctx.shard {
+            continue;
+        }
+        ctx.marker.set(idx, format!("stall {} bytes {} ms", bytes, stall_ms).as_bytes());
+        fresh();
+        res.evaluations += 1;
+        let manifest = format!(
+            "rule big\n  command = head -c {} /dev/zero | tr '\\0' x; echo; touch $out\n  description = BIG\nrule t\n  command = sleep 0.2; touch $out\n  description = NEXT $out\nbuild out1: big\nbuild out2: t out1\nbuild out3: t out2\n",
+            bytes
+        );
+        std::fs::write("build.ninja", &manifest).unwrap();
+        let (mut master, mut slave) = (0i32, 0i32);
+        let mut ws: libc::winsize = unsafe { std::mem::zeroed() };
+        ws.ws_col = 80;
+        ws.ws_row = 24;
+        let rc = unsafe { libc::openpty(&mut master, &mut slave, std::ptr::null_mut(), std::ptr::null(), &ws) };
+        let replay = || json!({"job": job, "index": idx});
+        if rc != 0 {
+            res.violation("machinery:openpty", || "openpty failed".into(), replay);
+            return;
+        }
+        let slave_fd = unsafe { OwnedFd::from_raw_fd(slave) };
+        let master_fd = unsafe { OwnedFd::from_raw_fd(master) };
+        // stdin is the pty too: n2 asks fd 0 for the window size
+        let child = Command::new(N2)
+            .args(["-j", "1"])
+            .stdin(std::process::Stdio::from(slave_fd.try_clone().expect("dup")))
+            .stdout(std::process::Stdio::from(slave_fd.try_clone().expect("dup")))
+            .stderr(std::process::Stdio::from(slave_fd))
+            .spawn();
+        let Ok(mut child) = child else {
+            res.violation("machinery:spawn", || "cannot run n2".into(), replay);
+            return;
+        };
+        let m = master_fd.as_raw_fd();
+        let pending = |fd: i32| -> i32 {
+            let mut n: libc::c_int = 0;
+            unsafe {
+                libc::ioctl(fd, libc::FIONREAD, &mut n);
+            }
+            n
+        };
+        // Phase 1: do not read; wait until the buffer holds something and has
+        // stopped growing (n2 is blocked in write), or n2 has exited.
+        let t0 = Instant::now();
+        let mut last = -1;
+        let mut stable_since = Instant::now();
+        let mut exited = None;
+        while t0.elapsed() < Duration::from_secs(20) {
+            if let Ok(Some(st)) = child.try_wait() {
+                exited = Some(st);
+                break;
+            }
+            let n = pending(m);
+            if n != last {
+                last = n;
+                stable_since = Instant::now();
+            } else if n > 0 && stable_since.elapsed() > Duration::from_millis(400) && std::path::Path::new("out1").exists() {
+                break;
+            }
+            std::thread::sleep(Duration::from_millis(20));
+        }
+        let stalled = exited.is_none();
+        if stalled {
+            std::thread::sleep(Duration::from_millis(*stall_ms));
+        }
+        // Phase 2: drain until n2 exits.
+        unsafe {
+            let fl = libc::fcntl(m, libc::F_GETFL);
+            libc::fcntl(m, libc::F_SETFL, fl | libc::O_NONBLOCK);
+        }
+        let mut seen = Vec::new();
+        let t1 = Instant::now();
+        let mut buf = [0u8; 65536];
+        let status = loop {
+            let n = unsafe { libc::read(m, buf.as_mut_ptr() as *mut libc::c_void, buf.len()) };
+            if n > 0 {
+                if seen.len() < 2_000_000 {
+                    seen.extend_from_slice(&buf[..n as usize]);
+                }
+                continue;
+            }
+            if let Ok(Some(st)) = child.try_wait() {
+                break Some(st);
+            }
+            if t1.elapsed() > Duration::from_secs(30) {
+                let _ = child.kill();
+                let _ = child.wait();
+                break None;
+            }
+            std::thread::sleep(Duration::from_millis(10));
+        };
+        drop(master_fd);
+        let built = std::path::Path::new("out3").exists();
+        let ok = matches!(status, Some(st) if st.success()) && built;
+        if !ok {
+            let text = String::from_utf8_lossy(&seen).to_string();
+            let tail: String = text.chars().rev().take(400).collect::<String>().chars().rev().collect();
+            res.violation(
+                "stalled-terminal-broke-the-build",
+                || format!("a finished command printed {} bytes while the terminal was not being read for {} ms (n2 blocked in write: {}): n2 ended with {:?}, out3 built: {}; end of terminal output: {:?}", bytes, stall_ms, stalled, status, built, tail),
+                replay,
+            );
+        } else {
+            res.nontrivial += 1;
+            res.outcome(if stalled { "stall-ok-blocked" } else { "stall-ok-not-blocked" });
+        }
+    }
+}
+
 // --- hide_success ------------------------------------------------------------------
 
 /// `hide_success` hides the output of a command that succeeded, never that of
@@ -1127,6 +1254,7 @@ pub fn run(ctx: &mut Ctx) -> ShardResult {
         "argv" => argv_job(ctx, &mut res),
         "conform" => conform_job(ctx, &mut res),
         "pty" => pty_job(ctx, &mut res),
+        "stall" => stall_job(ctx, &mut res),
         "hide" => hide_job(ctx, &mut res),
         "fdleak" => fdleak_job(ctx, &mut res),
         "dirs" => dirs_job(ctx, &mut res),
